@@ -97,6 +97,7 @@ remove = Contract(
 )
 
 CONTRACTS = [remove]
+remove.local_theories = ("colsum!",)  # solver strategy only: the totals' facts are needed by the totals' goals alone
 
 
 def _gen(rng):
